@@ -266,6 +266,23 @@ var c02amps = []c02amp{
 		fw.u16(n)
 		return c02cff(&cffSpec{cid: true, nFD: 3, charstrings: cs, charset: cw.b, fdselect: fw.b})
 	}},
+	{"cff-fdselect3-redundant-ranges", dCFF, func(size int, th bool) []byte {
+		// legal but redundant: adjacent format-3 ranges that select the same
+		// font dict (the library's own writer merges them)
+		pattern := [][]int{{0, 0}, {1, 1, 1, 1}, {0, 1, 1, 2, 2, 0, 0}}[size]
+		n := 4 * len(pattern)
+		cs := make([][]byte, n)
+		for i := range cs {
+			cs[i] = []byte{14}
+		}
+		fw := &bw{}
+		fw.u8(3).u16(len(pattern))
+		for i, fd := range pattern {
+			fw.u16(4 * i).u8(fd)
+		}
+		fw.u16(n)
+		return c02cff(&cffSpec{cid: true, nFD: 3, charstrings: cs, fdselect: fw.b})
+	}},
 	{"cff-cid-256-font-dicts-shared-private", dCFF, func(size int, th bool) []byte {
 		// every Font DICT points at the same Private DICT and the same Subrs INDEX
 		// (linear: at most 256 x (24 bytes per subr + data); sizes stay below the frozen bound)
@@ -648,6 +665,39 @@ var c02amps = []c02amp{
 		}
 		w.b = append(w.b, make([]byte, 4*n)...)
 		return w.b
+	}},
+	{"sfnt-table-record-wraps-2^32", dSfnt, func(size int, th bool) []byte {
+		// offset+length of one table record wraps around 2^32, so that the
+		// record passes range checks done in 32-bit arithmetic while its
+		// length field promises gigabytes
+		hd := (&bw{}).u32(0x00010000, 0x00010000, 0, 0x5F0F3CF5).u16(0, 1000).u32(0, 0, 0, 0).u16(0, 0, 0, 0, 0, 8, 2, 0, 0).b
+		mx := (&bw{}).u32(0x00010000).u16(2, 0, 0, 0, 0, 1, 0, 0, 0, 0, 0, 0, 0, 0).b
+		hh := (&bw{}).u32(0x00010000).u16(800, 0xFF38, 0, 1000, 0, 0, 1000, 1, 0, 0, 0, 0, 0, 0, 0, 1).b
+		hm := (&bw{}).u16(500, 0, 0).b
+		b := c02sfnt(0x00010000, map[string][]byte{"head": hd, "maxp": mx, "hhea": hh, "hmtx": hm,
+			"loca": make([]byte, 6), "glyf": {0, 0, 0, 0}, "cmap": {0, 0, 0, 0}, "name": {0, 0, 0, 0, 0, 6}})
+		victim := []string{"hhea", "cmap", "name"}[size]
+		n := int(b[4])<<8 | int(b[5])
+		for i := 0; i < n; i++ {
+			rec := b[12+16*i:]
+			if string(rec[:4]) != victim {
+				continue
+			}
+			off := uint32(rec[8])<<24 | uint32(rec[9])<<16 | uint32(rec[10])<<8 | uint32(rec[11])
+			var length uint32
+			switch size {
+			case 0:
+				length = 0xFFFFFFFF // end = offset-1
+			case 1:
+				length = 0 - off + 0x14 // end = 0x14 after the wrap
+			default:
+				length = 0x10000000 // 256 MiB, and move the table so that the sum wraps
+				off = 0xF0000000 + off
+				rec[8], rec[9], rec[10], rec[11] = byte(off>>24), byte(off>>16), byte(off>>8), byte(off)
+			}
+			rec[12], rec[13], rec[14], rec[15] = byte(length>>24), byte(length>>16), byte(length>>8), byte(length)
+		}
+		return b
 	}},
 	{"sfnt-empty-glyphs", dSfnt, func(size int, th bool) []byte {
 		n := pick3(size, 1000, 8000, 60000)
